@@ -230,6 +230,99 @@ theorem quicPayload_frame (pool b : List Nat) :
       rw [this, List.take_left']
       rfl
 
+/-- The length octets of `frameDoQ` spell the length of every message a prefix can announce. -/
+theorem frameDoQ_prefix (n : Nat) (h : n < 65536) : n / 256 % 256 * 256 + n % 256 = n := by omega
+
+/-- A message of at least a header (minus the two length octets: 10) that a length
+prefix can announce is handed to `Unpack` whole. -/
+theorem quicPayload_frame_some (pool b : List Nat) (h10 : 10 ≤ b.length) (hlt : b.length < 65536) :
+    quicPayload pool (frameDoQ b) = some b := by
+  unfold quicPayload bufAfterRead frameDoQ
+  simp only [List.length_append, List.length_cons, List.length_nil]
+  have h : ¬ (0 + 1 + 1 + b.length < 12) := by omega
+  simp only [h, if_false]
+  have hp := frameDoQ_prefix b.length hlt
+  have hne : ¬ (b.length / 256 % 256 * 256 + b.length % 256 ≠ 0 + 1 + 1 + b.length - 2) := by omega
+  simp only [List.cons_append, List.nil_append, List.getD_cons_zero, List.getD_cons_succ, hne, if_false,
+    List.drop_succ_cons, List.drop_zero]
+  have : 0 + 1 + 1 + b.length - 2 = b.length := by omega
+  rw [this, List.take_left']
+  rfl
+
+/-- What `readAll` has in the buffer: the delivered bytes, cut to the buffer. -/
+theorem readAll_fst (cap : Nat) (reads : List QRead) (acc : List Nat) (h : acc.length ≤ cap) :
+    (readAll cap reads acc).1 = (acc ++ delivered reads).take cap := by
+  induction reads generalizing acc with
+  | nil =>
+    have : (acc ++ delivered []).take cap = acc := by
+      simp only [delivered, List.append_nil]; exact List.take_of_length_le h
+    rw [this]; unfold readAll; split <;> rfl
+  | cons r rs ih =>
+    unfold readAll
+    by_cases hfull : acc.length = cap
+    · simp only [hfull, if_true]
+      exact (List.take_left' hfull).symm
+    · simp only [hfull, if_false]
+      by_cases hroom : cap - acc.length < r.data.length
+      · simp only [hroom, if_true]
+        unfold delivered
+        have hd : ∀ tl : List Nat, (acc ++ (r.data ++ tl)).take cap = acc ++ r.data.take (cap - acc.length) := by
+          intro tl
+          rw [List.take_append, List.take_of_length_le h, List.take_append]
+          have : cap - acc.length - r.data.length = 0 := by omega
+          simp [this]
+        cases r.err with
+        | none => exact (hd _).symm
+        | some e => simpa using (hd []).symm
+      · simp only [hroom, if_false]
+        unfold delivered
+        have hlen : (acc ++ r.data).length ≤ cap := by simp only [List.length_append]; omega
+        cases r.err with
+        | none => simp only []; rw [ih (acc ++ r.data) hlen, List.append_assoc]
+        | some e =>
+          have : (acc ++ r.data).take cap = acc ++ r.data := List.take_of_length_le hlen
+          cases e <;> simp [this]
+
+/-- The reader's verdict depends on the delivered bytes alone: not on how they were
+cut into `Read` results, nor on how the stream ended after them. -/
+theorem quicRead_delivered (cap : Nat) (pool : List Nat) (reads : List QRead) :
+    quicRead cap pool reads = quicPayload pool ((delivered reads).take cap) := by
+  unfold quicRead
+  rw [readAll_fst cap reads [] (by simp)]
+  simp
+
+/-- A stream whose message does not leave room for the two length octets is cut to
+the buffer and then fails the length check. -/
+theorem quicPayload_cut_none (cap : Nat) (pool b : List Nat) (h12 : 12 ≤ cap) (hbig : cap < b.length + 2)
+    (hlt : b.length < 65536) : quicPayload pool ((frameDoQ b).take cap) = none := by
+  obtain ⟨c, rfl⟩ : ∃ c, cap = c + 2 := ⟨cap - 2, by omega⟩
+  have hp := frameDoQ_prefix b.length hlt
+  unfold quicPayload bufAfterRead frameDoQ
+  simp only [List.cons_append, List.nil_append, List.take_succ_cons, List.length_cons, List.length_take,
+    List.getD_cons_zero, List.getD_cons_succ]
+  have hmin : min c b.length = c := by omega
+  rw [hmin]
+  have h : ¬ (c + 1 + 1 < 12) := by omega
+  simp only [h, if_false]
+  have hne : ¬ (b.length / 256 % 256 * 256 + b.length % 256 = c) := by omega
+  simp [hne]
+
+/-- `unpackInput` for DoQ is the reader on any script that delivers the framed
+message, for every message a length prefix can announce. -/
+theorem unpackInput_doq_is_read (pool b : List Nat) (reads : List QRead) (hlt : b.length < 65536)
+    (hd : delivered reads = frameDoQ b) :
+    unpackInput .doq pool b = quicRead quicBufSize pool reads := by
+  rw [quicRead_delivered, hd]
+  unfold unpackInput
+  by_cases hbig : quicBufSize < b.length + 2
+  · simp only [hbig, if_true]
+    exact (quicPayload_cut_none quicBufSize pool b (by unfold quicBufSize; omega) hbig hlt).symm
+  · simp only [hbig, if_false]
+    have : (frameDoQ b).take quicBufSize = frameDoQ b := by
+      apply List.take_of_length_le
+      simp only [frameDoQ, List.length_append, List.length_cons, List.length_nil]; omega
+    rw [this]
+
 /-- `serveBytes` is `dropped` or `serveWire` on (a prefix of) the message's own bytes. -/
 theorem serveBytes_cases (t : Transport) (pool b : List Nat) (unpack : List Nat → Option Msg)
     (o : Outcome) (wok : Bool) :
@@ -249,9 +342,11 @@ theorem serveBytes_cases (t : Transport) (pool b : List Nat) (unpack : List Nat 
         simp [h, this]; omega
   case doq =>
     unfold serveBytes unpackInput
-    rcases quicPayload_frame pool b with h | h
-    · left; simp [h]
-    · right; left; simp [h]
+    by_cases hbig : quicBufSize < b.length + 2
+    · left; simp [hbig]
+    · rcases quicPayload_frame pool b with h | h
+      · left; simp [hbig, h]
+      · right; left; simp [hbig, h]
   all_goals (right; left; simp [serveBytes, unpackInput])
 
 theorem dropped_msgs (t : Transport) : (dropped t).msgs = [] := by cases t <;> rfl
